@@ -362,6 +362,10 @@ theorem parseLoop_eq_ref (fin : Bool) (args : List Str) (acc : Acc) :
     rw [parseLoop_value _ _ _ _ (next_plain a rest last (fun c tail h => hx c tail h))]
     exact ih _
 
+theorem refParse_ne_panic (fin : Bool) (args : List Str) (acc : Acc) (site : Site) :
+    refParse fin args acc ≠ .panic site := by
+  fun_induction refParse fin args acc <;> simp_all [dupFrom, dupTo]
+
 /-- `parse_args` is the reference reading of the command line. -/
 theorem parseArgs_eq_ref (args : List Str) :
     parseArgs args = refParse false args { paths := [], «from» := none, to := none } :=
